@@ -213,7 +213,7 @@ def run(ctx):
     worlds = []
     for i in range(total):
         w = World()
-        b = DocBuilder(g, w, malformed=0.0, repeat_id=0.2, plain_binary=0.3)
+        b = DocBuilder(g, w, malformed=0.0, repeat_id=0.2, plain_binary=0.3, refused=0.15)
         d, scopes = b.random_document(n_records=g.rng.randint(1, 7))
         if g.chance(0.2) and b.cross_kind_cluster(g.choice(scopes)):
             ctx.count("one-identifier-two-merged-kinds")
